@@ -116,7 +116,7 @@ func c11Fork(node *Node, id string, index int) *Fork {
 // uniquifier?, file) is parsed back into exactly those five parts, and the
 // node and fork found from them are the ones that wrote it — also when
 // another fork's key looks like an array index or like this key's encoding.
-func H_C11_route(n int, withChunk int, withUniq int, st int, pf int) {
+func H_C11_route(n int, withChunk int, withUniq int, st int, pf int, writer int) {
 	k := verifString("k", n)
 	k2 := verifString("other", 1)
 	verifAssume(k != k2)
@@ -132,6 +132,10 @@ func H_C11_route(n int, withChunk int, withUniq int, st int, pf int) {
 	root := &Node{top: top, call: syntax.VerifPipelineNode("ID.ps.P", &syntax.CallStm{Id: "P", DecId: "P"}, nil, nil),
 		subnodes: map[string]Nodable{"S": node, "S2": other}}
 
+	// the notification may come from either fork (the other one is the look-alike)
+	if writer != 0 {
+		fk, fk2 = fk2, fk
+	}
 	// the name mrjob / mrp write: <journalPath base>[.u<uniq>].<prefix><state>
 	name := fk.fqname[len(top.fqname)+1:]
 	chunkIdx := -1
